@@ -1,6 +1,7 @@
 package main
 
 import (
+	"os"
 	"fmt"
 	"go/ast"
 	"go/types"
@@ -389,6 +390,9 @@ func (tr *Translator) summaryOf(ct *Contract) map[string]bool {
 		}
 	}
 	summaryCache[key] = w
+	if os.Getenv("MLRVC_DEBUG_SUMMARY") != "" {
+		fmt.Fprintln(os.Stderr, "summary", key, w)
+	}
 	return w
 }
 
